@@ -833,3 +833,8 @@ package table
 //@ func (*RoutingPolicy).AddPolicy
 //@   claims at-return
 //@   at-return requires refer && !ok && ret0 != nil ==> !has(pMap, name)
+// from C10 "what is read back equals what was configured": the origin CONDITION of a statement is read back from
+// the condition (not from the set-route-origin action, which is a different thing)
+//@ func toStatementApi
+//@   claims at-return
+//@   at-return requires called(ToOriginApi)
